@@ -2,7 +2,12 @@
    Property theorems only.  Models: NV.Io.Source (scripted byte source), NV.Io.ReadExact
    (std read_exact = bgzf default_read_exact; bam/bcf read_exact_or_eof), NV.Io.BufReader
    (std BufReader, read_until, noodles read_line), NV.Io.FastaScan (noodles-fasta sequence
-   reader and indexer line consumer), NV.Io.Run (bam record framing, bgzf frame reading).
+   reader and indexer line consumer), NV.Io.FastaIndex (the whole fasta indexer), NV.Io.FastqRead
+   (fastq record reader and indexer), NV.Io.HeaderRead (sam / vcf header readers), NV.Io.BedRead
+   (bed record reader), NV.Io.TabRead (lazy sam / vcf record readers), NV.Io.BgzfRead (bgzf frame
+   reader), NV.Io.Run (bam record framing, bgzf frame reading, entry points of the driver).
+   Closed forms imported read-only: NV.Fasta.* (C11), NV.Bgzf.{Frame,Reader,ReaderOps} (C01, C02),
+   NV.Text.BedRec (C18).
 
    A reader "simulates" a delivery of data d when each read either reports Interrupted (a
    bounded number of times) or returns a non-empty prefix of what is left, no longer than the
